@@ -15,8 +15,43 @@ W = dict(rd.DEFAULT_W, fault=0.3, unser=0.05, handler=0.35, discard=0.8, force=0
          interrupt=0.15, raise_=0.25, playdata=0.1, recdata=0.4)
 
 
+def stale_state_history(rng):
+    """Operation A captures some outputs and is then discarded / hits a capture fault; operation B on the same recorder
+    uses the same output alias and is replayed: B's recording must be numbered from 1 and replay cleanly."""
+    def out(alias, i, handler="none"):
+        return {"k": "out", "cfg": dict(alias=alias, static=True, handler=handler, fail=True, default={"t": "none"}),
+                "body": {"k": "ret", "e": {"lit": {"t": "int", "v": 100 + i}}}, "args": [{"lit": {"t": "int", "v": i}}], "kwargs": []}
+
+    def chain(stmts, term):
+        c = term
+        for st in reversed(stmts):
+            st = dict(st)
+            st["next"] = c
+            c = st
+        return c
+    alias = rng.choice(["send", "w"])
+    na = rng.randrange(1, 4)
+    fault = rng.choice(["discard", "handler", "interrupt"])
+    a_stmts = [out(alias, i) for i in range(na)]
+    if fault == "discard":
+        a_stmts.append({"k": "discard"})
+    elif fault == "handler":
+        a_stmts.append(out(alias, 9, handler="raises"))
+    term_a = {"k": "interrupt"} if fault == "interrupt" else {"k": "ret", "e": {"lit": {"t": "int", "v": 1}}}
+    opa = dict(cls="OpA", classlevel=False, extractor={"kind": "none"}, body=chain(a_stmts, term_a))
+    opb = dict(cls="OpA", classlevel=False, extractor={"kind": "none"},
+               body=chain([out(alias, i) for i in range(rng.randrange(1, 4))], {"k": "ret", "e": {"var": 0}}))
+    prm = dict(rate=[1, 1], ignore=False, skipped=False, copy=False)
+    return [dict(kind="record", enabled=True, prm=prm, op=opa, save_fails=False),
+            dict(kind="play", target=0, pf={"kind": "op", "op": rd.clean(opa)}, enabled=False),
+            dict(kind="record", enabled=True, prm=prm, op=opb, save_fails=False),
+            dict(kind="play", target=1, pf={"kind": "op", "op": rd.clean(opb)}, enabled=False)]
+
+
 def generate(rng, tier):
     cases = []
+    for _ in range(24 if tier == "quick" else 200):
+        cases.append(dict(draws=[], runs=stale_state_history(rng), cassette="memory"))
     n = 240 if tier == "quick" else 4000
     for i in range(n):
         runs = []
